@@ -8,6 +8,7 @@ import (
 type ParserData struct {
 	code      []ByteCode
 	codeIndex int
+	codeErr   error // 写入指令时出现的错误(指令数量超过上限)，解析结束后由 Parse 返回
 
 	Config        RollConfig
 	flagsStack    []RollConfig
@@ -76,7 +77,7 @@ func (e *ParserData) checkStackOverflow() bool {
 			copy(newCode, e.code)
 			e.code = newCode
 		} else {
-			// e.Error = errors.New("E1:指令虚拟机栈溢出，请不要发送过长的指令")
+			e.codeErr = errors.New("E1:指令虚拟机栈溢出，请不要发送过长的指令")
 			return true
 		}
 	}
